@@ -7,6 +7,7 @@ import (
 	"runtime/metrics"
 	"strings"
 	"sync"
+	"time"
 
 	wire "github.com/jeroenrinzema/psql-wire"
 
@@ -357,6 +358,54 @@ func (ch c20) Run(c *core.Ctx) {
 			c.Eval("reused statement object", true)
 			cl2.Finish()
 		}
+	}
+	// a server with every timeout this tree offers set short, and a parser that takes its time over some
+	// statements (it does not watch its context): whatever the server makes of the slow Parse - it waits, or it
+	// gives up and reports an error - the name belongs to the Parse that succeeded last, and Describe
+	// announces that statement's number of parameters, also once the slow call has come back
+	if c.Batch == 2%nb && c.Begin(39500000) {
+		hs.ShortTimeouts = true
+		envT := hs.Start(hs.Parse, wire.MessageBufferSize(1<<20))
+		hs.ShortTimeouts = false
+		slowSess := &hs.Sess{Default: func(q string) *hs.Prog {
+			if strings.HasPrefix(q, "/*slow*/") {
+				time.Sleep(80 * time.Millisecond)
+			}
+			return stmtProg
+		}}
+		cl3 := hs.NewClient(envT.Dial(slowSess))
+		if err := cl3.StartupOK("u"); err == nil {
+			for _, name := range []string{"", "s"} {
+				slowQ, fastQ := "/*slow*/ select $1, $2, $3", "select $1"
+				out1, _ := cl3.Step(append(pg.Parse(name, slowQ, nil), pg.Sync()...))
+				out2, _ := cl3.Step(append(pg.Parse(name, fastQ, nil), pg.Sync()...))
+				time.Sleep(200 * time.Millisecond) // detection power only: lets an abandoned slow call come back
+				out3, closed := cl3.Step(append(pg.Describe('S', name), pg.Sync()...))
+				if hangCheck(c, cl3, nil) {
+					break
+				}
+				c.Eval("slow parse then re-parse "+name, true)
+				c.Count("slow_parse_then_reparse_then_describe", 1)
+				m2 := mustMsgs(out2)
+				if len(m2) == 0 || m2[0].T != '1' {
+					continue // the second Parse did not succeed: nothing to compare
+				}
+				want := len(wire.ParseParameters(fastQ))
+				got := -1
+				for _, m := range mustMsgs(out3) {
+					if m.T == 't' {
+						got = len(m.OIDs)
+					}
+				}
+				if got != want {
+					c.Violate("describe-count", "Describe does not announce the number of parameters of the statement parsed last under the name (a slower Parse of the same name came first)", fmt.Sprintf("name %q: Parse %q -> %s; Parse %q -> %s; Describe -> %s closed=%v: announced %d, ParseParameters returned %d", name, slowQ, replyKinds(out1), fastQ, replyKinds(out2), replyKinds(out3), closed, got, want), nil)
+					break
+				}
+				c.Count("describe_counts_compared", 1)
+			}
+			cl3.Finish()
+		}
+		envT.Stop()
 	}
 	// Describe over a transport whose k-th Write is interrupted half-way with a temporary (timeout) error
 	// (what a write deadline does to a message larger than the socket buffer - ParameterDescription is the
